@@ -111,6 +111,15 @@ def IBurst (R : Nat) : Nat → List BSIn → Prop
     else if x.ti then q < R ∧ IBurst R (q + 1) xs
     else IBurst R q xs
 
+/-- Number of i-clock edges / o-clock edges in a schedule. -/
+def bsITicks : List BSIn → Nat
+  | [] => 0
+  | x :: xs => (if x.ti then 1 else 0) + bsITicks xs
+
+def bsOTicks : List BSIn → Nat
+  | [] => 0
+  | x :: xs => (if x.tO then 1 else 0) + bsOTicks xs
+
 /-! ### BusSynchronizer, width 1: `MultiReg(i, o, odomain)` only -/
 
 structure BS1State where
